@@ -135,14 +135,30 @@ func closureUsesAttr(n *vlang.Node) bool {
 }
 
 func (h *harness) check(ctx *bex.Ctx, prog *vlang.Node, allMaps bool) {
+	h.checkNamed(ctx, prog, allMaps, "this")
+}
+
+// checkNamed: the argument map is called mapName (the programs are written with "this"). The argument is
+// a local binding: an attribute (or constant, or static function) of the same name is shadowed by it.
+func (h *harness) checkNamed(ctx *bex.Ctx, prog *vlang.Node, allMaps bool, mapName string) {
+	attrs := attrSet
+	if mapName != "this" {
+		prog = vlang.SubstFree(prog, map[string]bool{"this": true}, func(string) *vlang.Node { return vlang.V(mapName) })
+		if attrSet[mapName] {
+			attrs = map[string]bool{}
+			for a := range attrSet {
+				attrs[a] = a != mapName
+			}
+		}
+	}
 	src := vlang.Render(prog)
-	explicit := vlang.Render(vlang.SubstFree(prog, attrSet, func(name string) *vlang.Node { return vlang.MemberN(vlang.V("this"), name) }))
-	ctx.Begin(func() map[string]any { return map[string]any{"src": src} })
+	explicit := vlang.Render(vlang.SubstFree(prog, attrs, func(name string) *vlang.Node { return vlang.MemberN(vlang.V(mapName), name) }))
+	ctx.Begin(func() map[string]any { return map[string]any{"src": src, "map_name": mapName} })
 	nontrivial := false
 	usesAttr := src != explicit
 	for gi, g := range h.gens {
-		fi, _, erri := g.GenerateWithMap(src, "this")
-		fe, _, erre := g.Generate(explicit, "this")
+		fi, _, erri := g.GenerateWithMap(src, mapName)
+		fe, _, erre := g.Generate(explicit, mapName)
 		if (erri != nil) != (erre != nil) {
 			ctx.Eval()
 			finding := ""
@@ -174,14 +190,14 @@ func (h *harness) check(ctx *bex.Ctx, prog *vlang.Node, allMaps bool) {
 				}
 				if oi.Err != oe.Err || (!oi.Err && oi.Canon != oe.Canon) {
 					ctx.Violate("GenerateWithMap and the explicit form give different outcomes",
-						map[string]any{"src": src, "explicit": explicit, "optimizer": gi == 0, "map": ma.name, "a": []int{0, 3}[ai]},
+						map[string]any{"src": src, "explicit": explicit, "optimizer": gi == 0, "map": ma.name, "a": []int{0, 3}[ai], "map_name": mapName},
 						"explicit: "+oe.String(), "implicit: "+oi.String(), "")
 				}
 			}
 		}
 	}
 	if nontrivial {
-		ctx.Nontrivial(src)
+		ctx.Nontrivial(mapName + "\x00" + src)
 		if ctx.WantSample() && len(src) > 14 {
 			ctx.Sample(map[string]any{"implicit": src, "explicit": explicit})
 		}
@@ -268,22 +284,55 @@ func run(ctx *bex.Ctx) {
 	}
 	ctx.Space("fixed-templates")
 	if ctx.Shard == 0 {
-		v, I, op := vlang.V, vlang.I, vlang.Op
-		for _, p := range []*vlang.Node{
-			v("pi"), op("+", v("a"), v("pi")), vlang.MemberN(v("this"), "pi"), op("+", vlang.MemberN(v("this"), "a"), v("a")),
-			vlang.Bo(true), vlang.IfN(vlang.Bo(true), v("a"), v("b")),
-			vlang.MethodN(vlang.MethodN(v("l"), "map", vlang.LamN([]string{"e"}, op("+", v("e"), v("a")))), "sum"),
-			vlang.MethodN(vlang.MethodN(v("l"), "map", vlang.LamN([]string{"a"}, op("+", v("a"), v("b")))), "sum"),
-			vlang.LetN("a", op("+", v("a"), I(1)), op("*", v("a"), v("b"))),
-			vlang.FuncN("f", []string{"n"}, vlang.IfN(op("<", v("n"), I(1)), v("a"), op("+", v("b"), vlang.CallN(v("f"), op("-", v("n"), I(1))))), vlang.CallN(v("f"), I(3))),
-			vlang.CallN(vlang.CallN(vlang.CallN(vlang.LamN([]string{"x"}, vlang.LamN([]string{"y"}, vlang.LamN([]string{"z"}, op("+", op("+", v("x"), v("y")), op("+", v("z"), v("a")))))), I(1)), I(2)), I(3)),
-			vlang.MethodN(v("this"), "size"),
-			vlang.StaticN("min", v("a"), v("b")),
-		} {
+		for _, p := range fixedTemplates() {
 			h.check(ctx, p, true)
 		}
 	}
 	ctx.SpaceDone("constants pi/true shadowing attributes, this.x mixed with x, attribute uses in 1..3 nested closures, recursive func, let shadowing an attribute")
+	runRest(ctx, h, maxA, maxB)
+}
+
+var mapNames = []string{"m", "max", "string", "numbers", "pi", "a"}
+
+func fixedTemplates() []*vlang.Node {
+	v, I, op := vlang.V, vlang.I, vlang.Op
+	return []*vlang.Node{
+		v("pi"), op("+", v("a"), v("pi")), vlang.MemberN(v("this"), "pi"), op("+", vlang.MemberN(v("this"), "a"), v("a")),
+		vlang.Bo(true), vlang.IfN(vlang.Bo(true), v("a"), v("b")),
+		vlang.MethodN(vlang.MethodN(v("l"), "map", vlang.LamN([]string{"e"}, op("+", v("e"), v("a")))), "sum"),
+		vlang.MethodN(vlang.MethodN(v("l"), "map", vlang.LamN([]string{"a"}, op("+", v("a"), v("b")))), "sum"),
+		vlang.LetN("a", op("+", v("a"), I(1)), op("*", v("a"), v("b"))),
+		vlang.FuncN("f", []string{"n"}, vlang.IfN(op("<", v("n"), I(1)), v("a"), op("+", v("b"), vlang.CallN(v("f"), op("-", v("n"), I(1))))), vlang.CallN(v("f"), I(3))),
+		vlang.CallN(vlang.CallN(vlang.CallN(vlang.LamN([]string{"x"}, vlang.LamN([]string{"y"}, vlang.LamN([]string{"z"}, op("+", op("+", v("x"), v("y")), op("+", v("z"), v("a")))))), I(1)), I(2)), I(3)),
+		vlang.MethodN(v("this"), "size"),
+		vlang.StaticN("min", v("a"), v("b")),
+	}
+}
+
+func runRest(ctx *bex.Ctx, h *harness, maxA, maxB int) {
+
+	// the argument map under other names: the name of a static function, of a constant, of an attribute
+	ctx.Space("map-names")
+	var nidx int64
+	for _, name := range mapNames {
+		for _, p := range fixedTemplates() {
+			nidx++
+			if ctx.Mine(nidx) {
+				h.checkNamed(ctx, p, true, name)
+			}
+		}
+		for k := 1; k <= 2 && !ctx.Expired(); k++ {
+			sk := &vlang.Skel{Obs2: "obs2"}
+			sk.Each(k, vlang.NewAttrScope(attrSorts, attrNames), func(p *vlang.Node) bool {
+				nidx++
+				if ctx.Mine(nidx) {
+					h.checkNamed(ctx, p, false, name)
+				}
+				return !ctx.Expired()
+			})
+		}
+	}
+	ctx.SpaceDone(fmt.Sprintf("the fixed templates and every binder skeleton with <= 2 binders with the argument map named %v (an ordinary name, static functions, a constant, an attribute of the map itself)", mapNames))
 
 	ctx.Space("tierB-binder-skeletons")
 	var idx int64
@@ -382,17 +431,21 @@ func replay(repro map[string]any) (string, bool) {
 	g := vrun.NewGen(opt, addHost)
 	m := maps(vrun.NewGen(true, nil), int(a))[0].m
 	var oi, oe vrun.Outcome
-	if f, _, err := g.GenerateWithMap(src, "this"); err != nil {
+	mapName, _ := repro["map_name"].(string)
+	if mapName == "" {
+		mapName = "this"
+	}
+	if f, _, err := g.GenerateWithMap(src, mapName); err != nil {
 		oi = vrun.Outcome{GenErr: true, Err: true, Msg: err.Error()}
 	} else {
 		oi = vrun.Eval(f, []value.Value{m})
 	}
-	if f, _, err := g.Generate(explicit, "this"); err != nil {
+	if f, _, err := g.Generate(explicit, mapName); err != nil {
 		oe = vrun.Outcome{GenErr: true, Err: true, Msg: err.Error()}
 	} else {
 		oe = vrun.Eval(f, []value.Value{m})
 	}
-	return fmt.Sprintf("GenerateWithMap(%q,\"this\") -> %s | Generate(%q,\"this\") -> %s", src, oi.String(), explicit, oe.String()), oi.String() != oe.String()
+	return fmt.Sprintf("GenerateWithMap(%q,%q) -> %s | Generate(%q,%q) -> %s", src, mapName, oi.String(), explicit, mapName, oe.String()), oi.String() != oe.String()
 }
 
 func main() {
